@@ -34,17 +34,27 @@ pub open spec fn args_prod(vm: Vm, k: nat) -> (int, int) decreases k {
 pub proof fn lemma_cancel(x: int, y: int, k: int) requires x * k == y * k, k > 0 ensures x == y {
     assert(x == y) by (nonlinear_arith) requires x * k == y * k, k > 0;
 }
+pub proof fn lemma_swap3(a: int, b: int, c: int) ensures (a * b) * c == (a * c) * b {
+    assert((a * b) * c == (a * c) * b) by (nonlinear_arith);
+}
 pub proof fn lemma_sum_step(sn: int, sd: int, n: int, d: int, xn: int, xd: int, rn: int, rd: int)
     requires sd > 0, d > 0, xd > 0, rd > 0, sn * d == n * sd, rn * (sd * xd) == (sn * xd + xn * sd) * rd
     ensures rn * (d * xd) == (n * xd + xn * d) * rd
 {
-    let lhs = rn * (d * xd); let rhs = (n * xd + xn * d) * rd;
-    let m = sn * d;
+    let lhs = rn * (d * xd); let a = n * xd; let b = xn * d; let rhs = (a + b) * rd;
+    // lhs * sd == (rn * (sd * xd)) * d
     assert(lhs * sd == (rn * (sd * xd)) * d) by (nonlinear_arith) requires lhs == rn * (d * xd);
-    assert((rn * (sd * xd)) * d == ((sn * xd + xn * sd) * rd) * d);
-    assert(((sn * xd + xn * sd) * rd) * d == (m * xd + xn * sd * d) * rd) by (nonlinear_arith) requires m == sn * d;
-    assert(m == n * sd);
-    assert((m * xd + xn * sd * d) * rd == rhs * sd) by (nonlinear_arith) requires m == n * sd, rhs == (n * xd + xn * d) * rd;
+    // ... == ((sn * xd + xn * sd) * rd) * d == ((sn * xd + xn * sd) * d) * rd
+    let t = sn * xd + xn * sd;
+    assert((rn * (sd * xd)) * d == (t * rd) * d);
+    lemma_swap3(t, rd, d);
+    // (sn * xd + xn * sd) * d == (a + b) * sd
+    assert((sn * xd) * d == a * sd) by (nonlinear_arith) requires sn * d == n * sd, a == n * xd;
+    assert((xn * sd) * d == b * sd) by (nonlinear_arith) requires b == xn * d;
+    assert(t * d == (a + b) * sd) by (nonlinear_arith) requires t == sn * xd + xn * sd, (sn * xd) * d == a * sd, (xn * sd) * d == b * sd;
+    // ((a + b) * sd) * rd == ((a + b) * rd) * sd
+    lemma_swap3(a + b, sd, rd);
+    assert(lhs * sd == rhs * sd);
     lemma_cancel(lhs, rhs, sd);
 }
 /// s = N/D, s1 = s * x  ==>  s1 = (N * nx) / (D * dx)
